@@ -1,0 +1,22 @@
+//go:build verif
+
+package metrics
+
+import "sort"
+
+// VerifTaskNum returns the task ids the per-state task gauge currently counts, per state name, read under the
+// metric's own lock.
+func VerifTaskNum() map[string][]string {
+	TaskNumVec.numLock.RLock()
+	defer TaskNumVec.numLock.RUnlock()
+	out := map[string][]string{}
+	for name, m := range map[string]map[string]struct{}{"Initial": TaskNumVec.initialTaskMap, "Running": TaskNumVec.runningTaskMap, "Paused": TaskNumVec.pauseTaskMap} {
+		ids := make([]string, 0, len(m))
+		for id := range m {
+			ids = append(ids, id)
+		}
+		sort.Strings(ids)
+		out[name] = ids
+	}
+	return out
+}
